@@ -10,6 +10,7 @@ import (
 	"strings"
 	"testing"
 
+	"github.com/issue9/mux/v9"
 	"github.com/issue9/mux/v9/types"
 	"pgregory.net/rapid"
 
@@ -31,6 +32,8 @@ type TReq struct {
 	Host   string              `json:"host"`
 	// Unknown: the body is sent without a declared length (ContentLength -1)
 	Unknown bool `json:"unknown"`
+	// Chunked: the request arrives with Transfer-Encoding: chunked (the dump then shows the chunk framing)
+	Chunked bool `json:"chunked,omitempty"`
 }
 
 type Case struct {
@@ -39,6 +42,9 @@ type Case struct {
 	Regs      []Reg   `json:"regs"`
 	Uses      [][]int `json:"uses"` // Use calls interleaved: Uses[i] happens before Regs[i]
 	Reqs      []TReq  `json:"reqs"`
+	// ValueT: the second part uses a router whose handler type is a plain struct value; its TRACE handler is the
+	// value {ZeroT}, which for 0 is the zero value of the type - a configured handler all the same
+	ZeroT int `json:"zero_t"`
 }
 
 var (
@@ -50,6 +56,7 @@ var (
 
 func gen(t *rapid.T) Case {
 	c := Case{Trace: rapid.Bool().Draw(t, "trace"), TraceBody: rapid.Bool().Draw(t, "traceBody")}
+	c.ZeroT = rapid.SampledFrom([]int{0, 0, 9}).Draw(t, "zeroT")
 	for i, n := 0, rapid.IntRange(0, 8).Draw(t, "nregs"); i < n; i++ {
 		c.Uses = append(c.Uses, rapid.SliceOfN(rapid.IntRange(0, 4), 0, 2).Draw(t, "use"))
 		c.Regs = append(c.Regs, Reg{Pattern: rapid.SampledFrom(patterns).Draw(t, "p"), Methods: rapid.SampledFrom(msets).Draw(t, "ms"),
@@ -73,6 +80,7 @@ func gen(t *rapid.T) Case {
 		q.Body = rapid.SampledFrom(bodies).Draw(t, "body")
 		q.Host = rapid.SampledFrom([]string{"", "example.com", "<host>"}).Draw(t, "host")
 		q.Unknown = rapid.IntRange(0, 3).Draw(t, "unknownLen") == 0
+		q.Chunked = rapid.IntRange(0, 3).Draw(t, "chunked") == 0
 		c.Reqs = append(c.Reqs, q)
 	}
 	return c
@@ -136,7 +144,7 @@ func check(c Case, st *rig.Stats) error {
 		wantOnion = append(wantOnion, use[i])
 	}
 	for i, q := range c.Reqs {
-		req := rig.Req{Method: "TRACE", Path: q.Path, Host: q.Host, Header: q.Header, Body: q.Body, UnknownLength: q.Unknown}
+		req := rig.Req{Method: "TRACE", Path: q.Path, Host: q.Host, Header: q.Header, Body: q.Body, UnknownLength: q.Unknown, Chunked: q.Chunked}
 		o := rig.Serve(r, req)
 		where := fmt.Sprintf("request %d TRACE %q (trace option %v, body %v); live %v", i, q.Path, c.Trace, c.TraceBody, m.Live())
 		if o.Panicked {
@@ -164,6 +172,10 @@ func check(c Case, st *rig.Stats) error {
 				if q.Unknown {
 					ref.ContentLength = -1
 				}
+			}
+			if q.Chunked {
+				ref.TransferEncoding = []string{"chunked"}
+				classes = append(classes, "chunked-request")
 			}
 			dump, err := httputil.DumpRequest(ref, c.TraceBody)
 			if err != nil {
@@ -228,7 +240,51 @@ func check(c Case, st *rig.Stats) error {
 			return rig.Violf("allow", "a TRACE handler is configured but OPTIONS * answers Allow=%v after %+v", o.Allow(), c.Regs)
 		}
 	}
+	if c.Trace {
+		if err := valueHandlers(c); err != nil {
+			return err
+		}
+		classes = append(classes, fmt.Sprintf("value-typed-handlers:trace={%d}", c.ZeroT))
+	}
 	st.Eval(c, nontriv, classes...)
+	return nil
+}
+
+// hid is a handler type that is a plain value: routers are generic, and nothing says a handler is a pointer or a func.
+type hid struct{ N int }
+
+// valueHandlers: a router over hid with WithTrace(hid{c.ZeroT}). The TRACE handler must answer every path, TRACE must
+// be in the Allow sets and must not be registrable by hand - also when the configured value is the type's zero value.
+func valueHandlers(c Case) error {
+	var ran []int
+	var methods []string
+	call := func(w http.ResponseWriter, r *http.Request, route types.Route, h hid) {
+		ran = append(ran, h.N)
+		if n := route.Node(); n != nil {
+			methods = n.Methods()
+		}
+	}
+	r := mux.NewRouter[hid]("v", call, hid{404}, func(types.Node) hid { return hid{405} }, func(types.Node) hid { return hid{204} }, mux.WithTrace(hid{c.ZeroT}))
+	r.Handle("/a", hid{1}, nil, "GET")
+	for _, path := range []string{"/a", "/nope"} {
+		ran = nil
+		rig.Serve(r, rig.Req{Method: "TRACE", Path: path})
+		if len(ran) != 1 || ran[0] != c.ZeroT {
+			return rig.Violf("trace-not-answered-by-trace-handler", "router over a value handler type, WithTrace(hid{%d}): TRACE %s ran %v", c.ZeroT, path, ran)
+		}
+	}
+	methods = nil
+	rig.Serve(r, rig.Req{Method: "OPTIONS", Path: "/a"})
+	has := false
+	for _, m := range methods {
+		has = has || m == "TRACE"
+	}
+	if !has {
+		return rig.Violf("allow", "router over a value handler type, WithTrace(hid{%d}): the methods of /a are %v, without TRACE", c.ZeroT, methods)
+	}
+	if _, panicked := rig.Try(func() { r.Handle("/a", hid{2}, nil, "TRACE") }); !panicked {
+		return rig.Violf("trace-registered-by-hand", "router over a value handler type, WithTrace(hid{%d}): Handle(/a, TRACE) was accepted", c.ZeroT)
+	}
 	return nil
 }
 
@@ -246,7 +302,7 @@ type nopCloser struct{ *strings.Reader }
 func (nopCloser) Close() error { return nil }
 
 var stats = rig.NewStats("C18",
-	"rapid draws a router with or without WithTrace (helper with or without body), 0-8 registrations / removals on four patterns with method sets that may contain TRACE, interleaved Use calls, and 1-6 TRACE requests (live witness, unknown, '*', '', random paths; headers and bodies with HTML metacharacters and binary bytes). With the option: the trace handler answers every path wrapped in exactly the Use middlewares, hand registration of TRACE panics, the helper replies 200 with Content-Type message/http present in the header snapshot taken at WriteHeader and a body equal to html.EscapeString(httputil.DumpRequest(identical request, body)); TRACE is in every Allow set. Without: TRACE is registrable and otherwise answered 404/405 per the table model. Non-trivial: with the option a TRACE on a non-live path or after a Use, or a request with HTML metacharacters; without it a TRACE served by a registered handler; distinct by hash of the case",
+	"rapid draws a router with or without WithTrace (helper with or without body), 0-8 registrations / removals on four patterns with method sets that may contain TRACE, interleaved Use calls, and 1-6 TRACE requests (live witness, unknown, '*', '', random paths; headers and bodies with HTML metacharacters and binary bytes, a quarter of them marked Transfer-Encoding: chunked); with the option a second router over a plain value handler type whose TRACE handler is the value {0} (the type's zero value) or {9}. With the option: the trace handler answers every path wrapped in exactly the Use middlewares, hand registration of TRACE panics, the helper replies 200 with Content-Type message/http present in the header snapshot taken at WriteHeader and a body equal to html.EscapeString(httputil.DumpRequest(identical request, body)); TRACE is in every Allow set. Without: TRACE is registrable and otherwise answered 404/405 per the table model. Non-trivial: with the option a TRACE on a non-live path or after a Use, or a request with HTML metacharacters; without it a TRACE served by a registered handler; distinct by hash of the case",
 	"httputil.DumpRequest and html.EscapeString (standard library) are the trusted reference for the helper's body")
 
 func TestProp(t *testing.T) { rig.RunProp(t, stats, gen, check) }
